@@ -48,6 +48,7 @@ package auditd
 //@ func (*reassemblerCB).ReassemblyComplete
 //@   blocks never
 //@   requires s != nil && s.au != nil && chancap(s.errors) >= 1 && pending(s.errors) >= 0
+//@   assert_at CoalesceMessages[verbatim] len(records) == old(len(msgs)) && (forall i int :: 0 <= i && i < len(records) ==> records[i] == old(msgs[i]))
 //@   ensures[once] g_au_calls == old(g_au_calls) || g_au_calls == old(g_au_calls) + 1
 //@   ensures[handed] g_co_err == nil && !(cast(g_co_event, "*aucoalesce.Event").Timestamp < s.after) ==> g_au_calls == old(g_au_calls) + 1 && g_au_lastev == g_co_event
 //@   ensures[skipped] g_co_err != nil || cast(g_co_event, "*aucoalesce.Event").Timestamp < s.after ==> g_au_calls == old(g_au_calls)
